@@ -76,6 +76,13 @@ Inductive label :=
 | GYield (a : addr) (t : option Z)(* the generator that has control yields (timeout t) *)
 | GReturn (a : addr)              (* ... returns *)
 | GRaise (a : addr)               (* ... raises (swallowed by the high-level wrapper: the low-level generator ends) *)
+| GCancel (a : addr) (restart : bool)
+                                  (* ... ends with the backend's cancellation exception although the server keeps
+                                     running (e.g. the handler awaited a future that was cancelled).  restart says whether
+                                     the task-done hook still restarts a task for a non-empty queue: true for the
+                                     original code (= GRaise); false for the code that passes
+                                     restart_if_queue_not_empty=False when the coroutine ended with the cancelled
+                                     exception (recorded from the implementation on every run) *)
 | PopWake (a : addr)              (* the coroutine waiting in pop_datagram gets a datagram *)
 | Timeout (a : addr).             (* ... or its timeout fires: TimeoutError is thrown into the generator *)
 
@@ -158,6 +165,14 @@ Definition finish (c : client) : lres :=
   | _ => CrashR                     (* mark_done: inconsistent state *)
   end.
 
+(* the hook when the coroutine ended with the cancelled exception and the code does not restart then:
+   mark_done(); return *)
+Definition finish_nr (c : client) : lres :=
+  match st c with
+  | TRunning => Ok (set_nactive (set_pc (set_st c TNone) PIdle) (pred (nactive c))) [] false
+  | _ => CrashR
+  end.
+
 Definition l_gsuspend (c : client) : lres :=
   match pc c with
   | PGen0 _ | PGen => Ok (set_gsusp c true) [] false
@@ -181,6 +196,13 @@ Definition l_gfinish (c : client) : lres :=
   match pc c with
   | PGen0 d => finish (set_hist c (hist c ++ [(d, false)]))
   | PGen => finish c
+  | _ => NotEnabled
+  end.
+
+Definition l_gcancel (c : client) : lres :=
+  match pc c with
+  | PGen0 d => finish_nr (set_hist c (hist c ++ [(d, false)]))
+  | PGen => finish_nr c
   | _ => NotEnabled
   end.
 
@@ -230,7 +252,12 @@ Definition step (s : state) (l : label) : option (state * list obs) :=
   | GSuspend a => if on_cpu s a then commit s (spawned s) a [] (l_gsuspend (cl s a)) else None
   | GYield a t => if on_cpu s a then commit s (spawned s) a [] (l_gyield a t (cl s a)) else None
   | GReturn a | GRaise a => if on_cpu s a then commit s (spawned s) a [] (l_gfinish (cl s a)) else None
+  | GCancel a r =>
+      if on_cpu s a then commit s (spawned s) a [] (if r then l_gfinish (cl s a) else l_gcancel (cl s a)) else None
   end.
+
+(* label sequences covered by the theorems: the hook restarts whenever the queue is non-empty *)
+Definition ok_label (l : label) : Prop := match l with GCancel _ false => False | _ => True end.
 
 (* run a label sequence; stops at the first label that is not enabled, returning its index *)
 Fixpoint steps (s : state) (ls : list label) : option state :=
@@ -268,7 +295,7 @@ Fixpoint trace (s : state) (ls : list label) : option (state * list obs) :=
 Definition label_addr (s : state) (l : label) : option addr :=
   match l with
   | Arrive a _ | HResume a | TaskStart a | GSuspend a | GResume a | GYield a _ | GReturn a | GRaise a
-  | PopWake a | Timeout a => Some a
+  | GCancel a _ | PopWake a | Timeout a => Some a
   | HStart _ => match spawned s with (a, _) :: _ => Some a | [] => None end
   end.
 
